@@ -157,13 +157,15 @@ pre_save = REG.unit(Unit(
             ("nothing-chosen-yet", "delete_id is None"),
         ]),
     },
-    props=["C09", "C07", "C06"], ghost_init=ghost_db,
+    props=["C09", "C07", "C06", "C03", "C04"], ghost_init=ghost_db,
     canaries=[("never-deletes", "ghost('n_deletes') == 0")],
 ))
 pre_save.ghost_havoc = lambda sx, body, st: None
 pre_save.local_types = {"delete_id": V.Opt(V.Bytes)}
 pre_save.post_locals = {"d_tag": V.Str}
 pre_save.obligation_props = [("sql:statement-inside-open-transaction", ["C07"]), ("post:stays-in-transaction", ["C07"]), ("post:no-failed-statement", ["C07"]),
+                             # C03/C04: the validated event is stored and served as it was accepted -- nothing on the admission path edits it
+                             ("frame:", ["C03", "C04", "C09"]),
                              # C06 ("resubmitting a stored event changes nothing") rests on: only STRICTLY older rows are superseded
                              ("post:supersedes-only-older-same-address", ["C09", "C06"]), ("post:regular-events-touch-nothing", ["C09", "C06"]),
                              ("post:", ["C09"]), ("inv:", ["C09"]), ("exc:", ["C09", "C07"]), ("call:", ["C07", "C09"])]
@@ -235,12 +237,13 @@ process_tags = REG.unit(Unit(
         1: LoopSpec("collect", index="_t", invariants=[("rows-untouched", "in_rows(ghost('rows'), r0) == in_rows(old(ghost('rows')), r0) and ghost('txn_open') and ghost('n_deletes') == 0"),
                                                        ("no-failure-swallowed", "not ghost('engine_failed')")]),
     },
-    props=["C08", "C07"], ghost_init=ghost_db,
+    props=["C08", "C07", "C03", "C04"], ghost_init=ghost_db,
     canaries=[("never-deletes", "ghost('n_deletes') == 0")],
 ))
 process_tags.ghost_havoc = lambda sx, body, st: [st.ghost.__setitem__(g, sx.fresh(st.ghost[g].ty, "g_" + g, st)) for g in ("rows", "n_statements", "n_deletes", "last_rowcount", "engine_failed")]
 process_tags.local_types = {"tags": V.Set(V.Tuple(V.Str, V.Str))}
 process_tags.obligation_props = [("sql:statement-inside-open-transaction", ["C07"]), ("post:stays-in-transaction", ["C07"]), ("inv:in-txn", ["C07"]),
+                                 ("frame:", ["C03", "C04", "C08"]),
                                  ("post:no-failed-statement", ["C07"]), ("inv:no-failure-swallowed", ["C07"]),
                                  ("post:", ["C08"]), ("inv:", ["C08"]), ("exc:", ["C08", "C07"])]
 
@@ -279,10 +282,10 @@ post_save_contract = Contract(
     modifies=["ghost.rows", "ghost.n_statements", "ghost.n_deletes", "ghost.n_tag_inserts", "ghost.last_rowcount", "ghost.process_tags_calls", "ghost.tags_indexed_for"],
 )
 post_save_contract.ghost_params = ("r0",)
-post_save = REG.unit(Unit(P, "DBStorage.post_save", post_save_contract, props=["C09", "C08", "C06", "C07", "C17", "C02"], ghost_init=ghost_db,
+post_save = REG.unit(Unit(P, "DBStorage.post_save", post_save_contract, props=["C09", "C08", "C06", "C07", "C17", "C02", "C03", "C04"], ghost_init=ghost_db,
                           canaries=[("always-changed", "changed")]))
 post_save.obligation_props = [("sql:statement-inside-open-transaction", ["C07"]), ("post:stays-in-transaction", ["C07"]), ("post:no-failed-statement", ["C07"]),
-                              ("post:newly-stored-event-gets-its-tags-indexed", ["C17", "C02", "C08"]),
+                              ("post:newly-stored-event-gets-its-tags-indexed", ["C17", "C02", "C08"]), ("frame:", ["C03", "C04"]),
                               ("post:unchanged-event-has-no-effects", ["C06"]), ("call:DBStorage.process_tags/pre:inside", ["C07"]),
                               ("post:", ["C09", "C08"]), ("exc:", ["C07"])]
 
